@@ -163,6 +163,15 @@ def run_case(case, ctx):
         return
     # ---- fit_transform == fit().transform() -------------------------------------------------------------
     t2 = build(cfg)
+    if case.get("pre") and case["dseed"] % 2:
+        # fit_transform on an instance that was fitted before (other configuration / data) must refit as well
+        try:
+            t2 = build(case["pre"])
+            t2.fit(W(y0))
+            t2.set_params(**build(cfg).get_params(deep=False))
+            ctx.tag("history:fit_transform-on-used-instance")
+        except Exception:  # noqa
+            t2 = build(cfg)
     ok1, a1 = ctx.call("fit_transform:exception:" + kind, t2.fit_transform, W(y.copy()))
     ok2, a2 = ctx.call("transform:exception:" + kind, tr.transform, W(y.copy()))
     if ok1 and ok2:
